@@ -181,7 +181,7 @@ const c02BoundaryRule = "case = merge of a small input holding the term in one d
 	"drawn from {1023,1024,1025,2047,2048,2049} after deleting the small input's posting and/or 0..2 postings of the large input; adaptive and fixed output chunk modes, both input orders; " +
 	"oracle = reference model + literal rebuild of the survivors; non-trivial = the small input's 1-hit posting is deleted or survives with the surviving cardinality within 1 of a multiple of 1024; distinct = hash of the case text"
 
-func c02BoundaryProp(st *CaseStats) func(t *rapid.T) {
+func c02BoundaryProp(st *CaseStats, assoc bool) func(t *rapid.T) {
 	return func(t *rapid.T) {
 		ctx := &Ctx{}
 		defer ctx.Close()
@@ -245,7 +245,8 @@ func c02BoundaryProp(st *CaseStats) func(t *rapid.T) {
 			return rapid.SampledFrom(modes).Draw(t, label)
 		}
 		ca := mk(a, pick("modeA"), fmt.Sprintf("A{%d docs, \"dense\" in doc %d, locs=%v}", nA, hitA, hitLocs))
-		preMerged := rapid.IntRange(0, 3).Draw(t, "preMergeA") > 0
+		preMerged := rapid.IntRange(0, 3).Draw(t, "preMergeA") > 0 || assoc
+		caBuilt := ca
 		if preMerged {
 			var err error
 			ca, _, err = MergeCases(ctx, []*SegCase{ca}, []*roaring.Bitmap{nil}, pick("modeAMerged"), holdMem)
@@ -285,6 +286,30 @@ func c02BoundaryProp(st *CaseStats) func(t *rapid.T) {
 		if err != nil {
 			t.Fatalf("case %s %s: %v", sc, c.Desc, err)
 		}
+		if assoc {
+			// C17's oracle: the same merge with the small input NOT merged beforehand (all at once) reads the same
+			flatIns := []*SegCase{caBuilt, cb}
+			if ins[0] == cb {
+				flatIns = []*SegCase{cb, caBuilt}
+			}
+			flat, _, err := MergeCases(ctx, flatIns, drops, c.Mode, holdMem)
+			if err != nil {
+				t.Fatalf("%s: %v", sc, err)
+			}
+			of, err := Observe(flat.Seg, ProbeFields, AllFacets)
+			if err != nil {
+				t.Fatalf("case %s %s: observing the all-at-once merge: %v", sc, flat.Desc, err)
+			}
+			on, err := Observe(c.Seg, ProbeFields, AllFacets)
+			if err != nil {
+				t.Fatalf("case %s %s: %v", sc, c.Desc, err)
+			}
+			if d := DiffObs(of, on, AllFacets); d != "" {
+				t.Fatalf("case %s\n  all at once: %s\n  small input merged alone first: %s\n  differ: %s", sc, flat.Desc, c.Desc, d)
+			}
+			st.Record(sc.String()+" "+c.Desc, true, fmt.Sprintf("surviving-cardinality-%d", target))
+			return
+		}
 		if d := Diff(c.Exp, obs, NoStats); d != "" {
 			t.Fatalf("case %s %s:\n  merged vs model: %s", sc, c.Desc, d)
 		}
@@ -310,7 +335,7 @@ func c02BoundaryProp(st *CaseStats) func(t *rapid.T) {
 func TestC02Boundary(t *testing.T) {
 	st := NewStats("C02Boundary", c02BoundaryRule)
 	defer st.Flush()
-	rapid.Check(t, c02BoundaryProp(st))
+	rapid.Check(t, c02BoundaryProp(st, false))
 }
 
 func TestC02Sparse(t *testing.T) {
